@@ -117,6 +117,28 @@ theorem C10_filter_region_offset_valid (m : Mode) (ashape fshape : List Nat) (st
   exact (C10_filter_address_is_element m ashape fshape strides p k (inside_pos_of_dims ashape p hp)
     hs hf (inside_length ashape p hp) (by rw [inside_length fshape k hk, hf])).2
 
+/-- **B1, the offsets table itself is read in range.** `retrieve` reads `cur_offsets_idx_[j]`,
+`j < footprint_size`, where `cur_offsets_idx_` sits at row `Σ_d regionIndex_d(p_d)·strides[d]` of a
+table of `offsets_size = Π_d min(ashape_d, fshape_d)` rows. For every rank, shapes (filter axes ≥ 1,
+any relation to the array) and position `p` inside the array: per axis the region index is
+`< min(a,f)`, the last coordinate `a-1` uses exactly the last region `min(a,f)-1` (so the carry
+`-= backstrides[d] = (step-1)·strides[d]` of `iterate_both` returns to region 0 and never leaves the
+table), the row is `< offsets_size`, and `row·size + j` is inside the vector of `offsets_size·size`
+entries. -/
+theorem C10_filter_table_row_in_bounds (ashape fshape : List Nat) (p : List Int)
+    (hf : ∀ f ∈ fshape, 0 < f) (hlen : fshape.length = ashape.length)
+    (hp : inside ashape p = true) (fsize j : Nat) (hj : j < fsize) :
+    tableRow ashape fshape p < shapeSize (minShape ashape fshape) ∧
+    tableRow ashape fshape p * fsize + j < shapeSize (minShape ashape fshape) * fsize ∧
+    ∀ a f : Nat, 0 < f → 0 < a →
+      (∀ q, q < a → regionIndex a f q < min a f) ∧ regionIndex a f (a - 1) = min a f - 1 := by
+  have h := ravelI_lt _ _ (regionIdxPos_inside ashape fshape p hf hlen hp)
+  refine ⟨h, ?_, fun a f hf' ha => ⟨fun q hq => regionIndex_lt a f q hf' hq, regionIndex_last a f hf' ha⟩⟩
+  have h2 := Nat.mul_le_mul_right fsize (Nat.succ_le_of_lt h)
+  rw [Nat.succ_mul] at h2
+  unfold tableRow
+  omega
+
 /-! non-vacuity (B1): a 1-D array of 3 elements, a filter of 5 (larger than the array), `reflect`:
     15 reads, none flagged, all in range; with `constant` the out-of-array ones are the flag. -/
 example : filterIdx .reflect [3] [5] = [1, 0, 0, 1, 2, 0, 0, 1, 2, 2, 0, 1, 2, 2, 1] := by decide
@@ -124,7 +146,8 @@ example : filterIdx .constant [2, 2] [1, 3] =
     [-1, 0, 1, 0, 1, -1, -1, 2, 3, 2, 3, -1] := by decide
 example : tableOffset .nearest [2, 3] [1, 2] [3, 3] [0, 2] [2, 2] = some 1 := by decide
 example : (List.range 7).map (fun p => regionPos 7 3 (regionIndex 7 3 p)) = [0, 1, 1, 1, 1, 1, 6] ∧
-    repPos [7, 3] [3, 5] [4, 1] = [1, 1] := by decide
+    repPos [7, 3] [3, 5] [4, 1] = [1, 1] ∧ tableRow [7, 3] [3, 5] [6, 2] = 8 ∧
+    shapeSize (minShape [7, 3] [3, 5]) = 9 := by decide
 
 /-! ## B2 — `fast_binary_dilate_erode_2d` -/
 
